@@ -1058,6 +1058,28 @@ __attribute__((noinline)) int thrower(int x) { if (x > 0) throw std::string("x")
 int main() { int s = 0; try { s += thrower(1); } catch (std::string &e) { s += (int)e.size(); } printf("%d\n", s); return 6; }
 """
 
+E2E_WITNESS_NEST_LIBCALL_CATCH = r"""
+#include <cstdio>
+volatile int sink;
+#define NI __attribute__((noinline))
+struct Guard { int v; NI Guard(int v_) : v(v_) { sink += v; } NI ~Guard() { sink += v; printf("dtor %d\n", v); } };
+struct IGuard { int v; IGuard(int v_) : v(v_) {} ~IGuard() { puts("g"); } };
+NI int f14(int x) { IGuard ig(2); puts("p"); throw 49; return x; }
+NI int f12(int x) { Guard g(6); sink += f14(x); return x; }
+NI int f9(int x) { sink += f12(x); return x + 1; }
+NI int f8(int x) { try { sink += f9(x); } catch (int e) { printf("catch %d\n", e); throw 48; } return x; }
+NI int f7(int x) { Guard g(5); sink += f8(x); return x; }
+int main() { try { sink += f7(1); } catch (int e) { printf("catch %d\n", e); } printf("sink %d\n", sink); return 3; }
+"""
+
+E2E_WITNESS_NEST_LIBCALL_RETHROW = r"""
+#include <cstdio>
+volatile int sink;
+__attribute__((noinline)) int thrower(int x) { if (x > 0) throw 42; return x; }
+__attribute__((noinline)) int mid(int x) { try { sink += thrower(x); } catch (int e) { sink += e; throw; } return x; }
+int main() { try { mid(1); } catch (int e) { sink += 10 * e; } printf("%d\n", sink); return 5; }
+"""
+
 E2E_WITNESS_MAX_STACK = r"""
 #include <setjmp.h>
 #include <stdio.h>
@@ -1349,7 +1371,7 @@ def run_e2e(ctx, objdir):
         flags = rng.choice(FLAGS[lang])
         c = {"name": "p%d" % i, "src": src, "lang": lang, "flags": flags, "tags": sorted(g.tags)}
         # --nest-libcall: the PLTs of the libraries are hooked too (the unwinder's own calls, libc internals)
-        if flags[0] == "-pg" and rng.random() < 0.2:
+        if flags[0] == "-pg" and rng.random() < 0.3:
             c["record_opts"] = ["-l"]
             c["tags"] = c["tags"] + ["record -l"]
         cases.append(c)
@@ -1399,6 +1421,14 @@ def run_e2e(ctx, objdir):
          "record_opts": ["-l"],
          "what": "record --nest-libcall on a C++ program that throws: the unwinder's own library calls were taken for landing-pad "
                  "calls (in_exception), every return address was hooked again under its feet and the program died in std::terminate"},
+        {"name": "w_nestlib2", "src": E2E_WITNESS_NEST_LIBCALL_CATCH, "lang": "c++", "flags": ["-pg", "-O0"], "key": "nest-libcall-begin-catch",
+         "record_opts": ["-l"],
+         "what": "record --nest-libcall: the library calls made inside the real __cxa_begin_catch (above the frame of the throw, already "
+                 "unwound) were taken for landing-pad calls and hooked the wrapper's own return slot: the traced program crashed"},
+        {"name": "w_nestlib3", "src": E2E_WITNESS_NEST_LIBCALL_RETHROW, "lang": "c++", "flags": ["-pg", "-O0"], "key": "nest-libcall-rethrow",
+         "record_opts": ["-l"],
+         "what": "record --nest-libcall: __cxa_rethrow starts the unwinder with _Unwind_Resume_or_Rethrow, whose return address was "
+                 "hijacked like an ordinary library call: no handler found, std::terminate"},
     ]
     wd = os.path.join(ctx.scratch, "e2e")
 
